@@ -2743,13 +2743,21 @@ class Trimesh(Geometry3D):
         # if the density or center of mass was overridden they will be put into data
         density = self._data.data.get("density", None)
         center_mass = self._data.data.get("center_mass", None)
-        return triangles.mass_properties(
+        properties = triangles.mass_properties(
             triangles=self.triangles,
             crosses=self.triangles_cross,
             density=density,
             center_mass=center_mass,
             skip_inertia=False,
         )
+        # this is a cached value which copies may share so its arrays
+        # are read-only: an overridden center of mass is the stored
+        # array itself and stays editable
+        if center_mass is None:
+            properties.center_mass.flags.writeable = False
+        if properties.inertia is not None:
+            properties.inertia.flags.writeable = False
+        return properties
 
     def invert(self) -> None:
         """
